@@ -94,6 +94,10 @@ var targets = []target{
 	{Group: "Htlc", Mod: "htlc", Pkg: "keeper", Func: "Keeper.createHTLT", Lean: "createHTLT", Guards: true, Conds: true},
 	{Group: "Htlc", Mod: "htlc", Pkg: "keeper", Func: "Keeper.UpdateTimeBasedSupplyLimits", Lean: "UpdateWindow",
 		Locals: []string{"newTimeElapsed", "supply_TimeElapsed"}, Guards: true, Conds: true},
+	{Group: "Mt", Mod: "mt", Pkg: "keeper", Func: "Keeper.AddBalance", Lean: "AddBalance", Locals: []string{"balance"}, Guards: true, Conds: true},
+	{Group: "Mt", Mod: "mt", Pkg: "keeper", Func: "Keeper.SubBalance", Lean: "SubBalance", Locals: []string{"balance"}, Guards: true, Conds: true},
+	{Group: "Mt", Mod: "mt", Pkg: "keeper", Func: "Keeper.IncreaseMTSupply", Lean: "IncreaseMTSupply", Locals: []string{"supply"}, Guards: true, Conds: true},
+	{Group: "Mt", Mod: "mt", Pkg: "keeper", Func: "Keeper.decreaseMTSupply", Lean: "decreaseMTSupply", Locals: []string{"supply"}, Guards: true, Conds: true},
 	{Group: "Random", Mod: "random", Pkg: "types", Func: "PRNG.GetRand", Lean: "GetRand",
 		Locals: []string{"seedBT", "seedBH", "seedTI", "seedSum", "seedOS", "precision"}, Conds: true},
 	{Group: "TokenFee", Mod: "token", Pkg: "keeper", Func: "Keeper.MintToken", Lean: "MintToken",
@@ -414,6 +418,13 @@ func (t *tr) expr(e ast.Expr, out *[]string) (string, kind) {
 			case token.GEQ:
 				return "(decide (" + a + " ≥ " + b + "))", kBool
 			}
+		}
+		if ak == kNat && bk == kNat && (x.Op == token.ADD || x.Op == token.SUB) {
+			// uint64 arithmetic wraps modulo 2^64; `U64_Add` / `U64_Sub` say so
+			if b, ok := info.TypeOf(x.X).Underlying().(*types.Basic); !ok || b.Kind() != types.Uint64 {
+				t.fail(x, "unsigned arithmetic narrower than 64 bits")
+			}
+			return "(" + map[token.Token]string{token.ADD: "U64_Add", token.SUB: "U64_Sub"}[x.Op] + " " + a + " " + b + ")", kNat
 		}
 		if ak == kI64 && bk == kI64 && (x.Op == token.ADD || x.Op == token.SUB) {
 			// int64 arithmetic wraps (two's complement); `I64_Add` / `I64_Sub` say so
